@@ -774,7 +774,7 @@ def check_outside_claim(ctx, dns, rng):
         ctx.count(tag + "_raise")
 
 
-def run_case(ctx, dns, i, sample=False):
+def run_case(ctx, dns, i, sample=False, refusal=True):
     rng = ctx.case_rng(i)
     r = rng.random()
     large = r < 0.008
@@ -804,7 +804,7 @@ def run_case(ctx, dns, i, sample=False):
             ctx.evaluated()
             ctx.distinct(("trunc", i, m))
             check_truncation(ctx, dns, spec, i, wire, m)
-    if i % 8 == 0:
+    if i % 8 == 0 and refusal:
         ctx.evaluated()
         check_refusal(ctx, dns, ctx.case_rng(i, "refuse"), i)
     if i % 64 == 0:
@@ -828,4 +828,4 @@ def replay(ctx, w):
     if x.get("refusal"):
         check_refusal(ctx, dns, ctx.case_rng(x["case"], "refuse"), x["case"])
     else:
-        run_case(ctx, dns, x["case"])
+        run_case(ctx, dns, x["case"], refusal=False)
